@@ -471,6 +471,16 @@ func (w *walker) randomWalk(r *Rng, steps int) {
 			w.reinit([]string{"asis", "random", "unchanged"}[r.Intn(3)])
 		default:
 			w.randomize(r)
+			if w.cm.limVar >= 0 && r.Chance(0.7) {
+				// hold phase (C03): Randomize leaves the state next to the limit; from there follow the
+				// single-objective policy only (accept exactly what the verdict allows), as an annealing run does
+				hold := 8 + r.Intn(24)
+				for h := 0; h < hold && k < steps; h++ {
+					w.transaction(r.Intn(n), 2, r.Chance(0.3))
+					k++
+				}
+				w.c.Stat(w.tag + " hold phase")
+			}
 		}
 	}
 }
@@ -600,6 +610,16 @@ func suiteCatchmentWalk(c *Ctx) {
 			v := r.Intn(6)
 			for _, lim := range limitsFor(ref, r, v, 1) {
 				jobs = append(jobs, job{ds: ds, limVar: v, limit: lim, tag: "generated-limited", steps: walkSteps / 2})
+			}
+			if strings.Contains(filepath.Base(ds), "adv_") {
+				// non-monotone data: a limit on two more variables, so that "moving away from the limit" by
+				// (de)activation is not something the data guarantees
+				for extra := 0; extra < 2; extra++ {
+					v = (v + 1 + r.Intn(5)) % 6
+					for _, lim := range limitsFor(ref, r, v, 1) {
+						jobs = append(jobs, job{ds: ds, limVar: v, limit: lim, tag: "adverse-limited", steps: walkSteps / 2})
+					}
+				}
 			}
 		}
 	}
